@@ -80,7 +80,15 @@ def make_substitution(ccls, case_map=None):
             for k in (getattr(ccls, "may_raise", None) or []):
                 if path.decide(z3.Bool(path.fresh_name(f"{site}.may_raise.{k.__name__}"))):
                     raise PyRaise(ExcV(k, ()))
-            result = make_symbolic(I, rspec, f"{site}#{n}.result", env=ns) if rspec is not None else None
+            creates = getattr(ccls, "returns_new", None)
+            if creates is not None:
+                # the callee returns a NEW object: the next object of this region
+                rref = make_symbolic(I, creates, f"{site}#{n}.region", env=ns)
+                # the region stands for ALL objects of its kind the run creates: its (ghost) size is at least what is created
+                path.assume(I.alloc_counter(rref) < path.cell(rref).n)
+                result = I.allocate(rref)
+            else:
+                result = make_symbolic(I, rspec, f"{site}#{n}.result", env=ns) if rspec is not None else None
             ns["result"] = result
             for name, f in contract_functions(ccls, "ensures"):
                 v = I.spec_call(f, bind_by_name(f, ns))
@@ -98,4 +106,5 @@ def make_substitution(ccls, case_map=None):
         finally:
             I.old_heap = saved_old
 
+    substitute.contract = ccls
     return substitute
